@@ -31,10 +31,11 @@ PROPS = {
             {"kind": "verus", "unit": "timeout"},
             {"kind": "verus", "unit": "depthorder"},
             {"kind": "verus", "unit": "snth"},
+            {"kind": "scan", "spec": "ufcall_sites"},
         ],
         "unreached": [
             "the searching builtins other than the loops of sequence take_while / skip_until / nth (find, contains, the natives written over generators ...): that each consumes one permit per element examined",
-            "that every route by which library code calls a user function goes through eval_func_with_values (argued from visibility, not proved)",
+            "that a native cannot evaluate a user-function BODY by other means than a frame (the frame construction sites are enumerated by S-ufcall: only eval_func_with_values and the root scope; natives that call `nc(..)` of another native directly do not run user code)",
         ],
         "assumptions": ["an evaluation performs fewer than 2^64 consecutive tail calls / nested frames (usize counters)",
                         "V-budget: std's repeat_with / take / chain / once, either::Either and Zip by their documented meaning (stream model: length and item at each index); V-seqsearch: iterator model of V-derive, the budget stream restated for finite streams (budget_shape)"],
